@@ -228,12 +228,13 @@ pub fn execute(sc: &Scenario) -> Outcome {
     let yaml: Yaml = serde_yaml::from_str(&text).unwrap_or(Yaml::Null);
     let shape = gen::rule_shape(&yaml);
     let t_start = std::time::Instant::now();
-    for sw in &sc.switch_sets {
-        if t_start.elapsed().as_secs() >= 6 {
+    let (plan_sw, plan_hs) = crate::exec::plan(sc);
+    for sw in &plan_sw {
+        if t_start.elapsed().as_secs() >= crate::exec::BACKSTOP_S {
             stats.inc("heavy_scenarios_cut_short");
             break;
         }
-        for h in sc.hash_seeds.iter().take(if *sw == 0 { 1 } else { 2 }) {
+        for h in plan_hs.iter().take(if *sw == 0 { 1 } else { 2 }) {
             let r = if *sw == 0 {
                 (*rule).clone()
             } else {
